@@ -417,10 +417,17 @@ func discoverLexRoles(c *Ctx) *lexRoles {
 // lexer/util whose body is a single return of IsRuneInRange(char, RuneRange{..}...)
 // or a boolean combination of rune comparisons / other predicates.
 func (r *lexRoles) loadPreds(c *Ctx) {
-	up := c.Pkg("homescript/lexer/util")
+	r.loadPredsOf(c, c.Pkg("homescript/lexer/util"))
+	r.loadPredsOf(c, r.pkg)
+}
+
+func (r *lexRoles) loadPredsOf(c *Ctx, up *packages.Package) {
 	info := up.TypesInfo
 	decls := map[*types.Func]*ast.FuncDecl{}
 	for _, fd := range AllFuncDecls(up) {
+		if fd.Recv != nil {
+			continue
+		}
 		if fn, ok := info.Defs[fd.Name].(*types.Func); ok {
 			decls[fn] = fd
 		}
@@ -735,6 +742,12 @@ func (e *lexEval) eval(s *lexState, x ast.Expr) lv {
 			return a
 		}
 		fn := CalleeOf(info, t)
+		if fn != nil && fn.Pkg() != nil && fn.Pkg().Path() == "strings" && fn.Name() == "ReplaceAll" && len(t.Args) == 3 {
+			a1, a2 := info.Types[t.Args[1]], info.Types[t.Args[2]]
+			if a1.Value != nil && a2.Value != nil && constant.StringVal(a1.Value) == "_" && constant.StringVal(a2.Value) == "" {
+				return lv{desc: "stripped(_)"}
+			}
+		}
 		if fn == e.r.newToken && len(t.Args) == 3 {
 			return lv{k: lvToken, parts: []lv{e.eval(s, t.Args[0]), e.eval(s, t.Args[1]), e.eval(s, t.Args[2])}}
 		}
